@@ -3,7 +3,7 @@
 use super::IpVersion;
 use crate::{
     bencode,
-    message::{Message, TransactionId},
+    message::{Message, MessageBody, TransactionId},
     SocketTrait,
 };
 use async_trait::async_trait;
@@ -76,12 +76,20 @@ impl Socket {
             let (size, addr) = r?;
             match bencode::decode::<Message>(&buffer[0..size]) {
                 Ok(message) => {
-                    if let Some(responded) = self
-                        .transactions
-                        .lock()
-                        .unwrap()
-                        .remove(&(addr, message.transaction_id.clone()))
-                    {
+                    // Only a response or an error can complete a pending exchange. A query is
+                    // always for the handler, even when it happens to come from the address and
+                    // carry the transaction id of a request we are waiting on; otherwise it would
+                    // be swallowed here and never answered.
+                    let pending = if matches!(message.body, MessageBody::Request(_)) {
+                        None
+                    } else {
+                        self.transactions
+                            .lock()
+                            .unwrap()
+                            .remove(&(addr, message.transaction_id.clone()))
+                    };
+
+                    if let Some(responded) = pending {
                         responded.lock().unwrap().make_ready(message);
                     } else {
                         return Ok((message, addr));
